@@ -263,6 +263,20 @@ def corpus_cases(cases):
     base = cases.add("corpus:D6_base", S({"hdr": hdr(nv=4, ne=2), "chunks": [vert(0, 4), topo(1, 0, 2, 2, 1, [1, 2, 2, 3]), eof()]}))
     cases.add("corpus:D6_split", S({"hdr": hdr(nv=4, ne=2), "chunks": [vert(0, 4), topo(1, 0, 1, 2, 1, [1, 2]), topo(1, 1, 1, 2, 1, [2, 3]), eof()]}), expect="same", base=base)
     cases.add("corpus:D6_offset", S({"hdr": hdr(nv=4, ne=2), "chunks": [vert(0, 4), topo(1, 0, 2, 2, 1, [0, 1, 1, 2], offset=1), eof()]}), expect="same", base=base)
+    # batch 3 (found by the round-trip proofs, IO/Ovmb2*.v):
+    #   * the re-ordering path of HexahedralMeshTopologyKernel::add_cell (hex class, topology check on) - the lock step had never
+    #     reached it and the reader model lacked the two checks the library performs after it (every slot is_valid(), second
+    #     check_halfface_ordering): every permutation of a cube's halffaces, cubes with a flipped / doubled / foreign side, and the
+    #     witness whose re-ordering leaves an invalid slot (must be refused)
+    #   * VERT / TOPO sizes computed in 32 bits (cc44d4f): declared counts at the old limit are exercised by the field mutations
+    #     (bset: 178956971, 2^30); the 4 GB file itself is replayed by build/ovmb2/big/big_vert.cc, not here
+    from kgen import Rng
+    hx_rng = Rng(20260929)
+    for (lab, data, rej) in iogen.hex_order_files(hx_rng):
+        cases.add("corpus:hexorder:" + lab, data, mesh="hex", check=1, bu=hx_rng.below(2), expect="reject" if rej else None)
+        if rej or hx_rng.chance(1, 12):
+            cases.add("corpus:hexorder:" + lab, data, mesh="hex", check=0, bu=1)
+            cases.add("corpus:hexorder:" + lab, data, mesh="poly", check=1, bu=0)
 
 def optional_ascii(ctx, pid):
     if os.environ.get("VERIF_OVMB_ONLY"): return      # development aid: binary half only
@@ -357,7 +371,7 @@ def check_C18(ctx):
     ctx.cov["samples"] += [{"theorem": t} for t in fw.theorem_statements("Props/Properties_C18.v", 4)]
     ctx.assumptions += ["the stream failure model: the stream reports its full length to seekg/tellg and then delivers only the first k bytes (harness/faultstream.hh)",
                         "files whose header declares more than 2^22 entities are not run through the model (allocation): they run in the unsanitized build under ulimit -v; accepted outcomes are an error result, a std::exception (OtherError) or Ok with a mesh that passes the C++ mesh_valid oracle",
-                        "C18_prefix assumes that encode m is a byte string shorter than 2^62 (`small`): the driver evaluates this on every mesh observed from the real writer (small=1) and C06 reports a broken tie otherwise"]
+                        "C18_prefix assumes that encode m is a byte string shorter than 2^62 (`small`); C18_encode_small / C18_prefix' derive it from wf_file and explicit bounds on the mesh (`bounded`); the driver also evaluates small on every mesh observed from the real writer (small=1) and C06 reports a broken tie otherwise"]
 
 def write_faults(ctx, impl, model, descs, rng, quick):
     import iogen
@@ -464,7 +478,7 @@ def check_C07(ctx):
     ctx.cov["samples"] += [{"theorem": t} for t in fw.theorem_statements("Props/Properties_C07.v", 4)]
     ctx.assumptions += ["memory safety of the C++ object graph itself is observed by the sanitizers on the generated inputs, not proved; the theorems prove the index/length discipline of the model",
                         "files declaring more than 2^22 entities are not run through the model (allocation): unsanitized build under ulimit -v; accepted outcomes: error result, std::exception (OtherError), or Ok with a mesh passing the C++ mesh_valid oracle",
-                        "C07_valid (stored handles in range) is proved for header counts below 2^30 and every configuration except hexahedral class + topology check (re-ordering path of the hexahedral kernel); the C++ mesh_valid oracle covers that configuration on the generated inputs",
+                        "C07_valid (stored handles in range) is proved for header counts below 2^30 and EVERY configuration (the hexahedral re-ordering path rests on the is_valid() / second check_halfface_ordering of HexahedralMeshTopologyKernel::add_cell, modelled in mesh_add_cell); the C++ mesh_valid oracle checks the same on the generated inputs",
                         "entity counts below 2^30 (every half-entity handle representable as int)"]
     optional_ascii(ctx, "C07")
 
@@ -476,6 +490,8 @@ def check_C06(ctx):
     init_ctx(ctx)
     regen(ctx)
     fw.coq_prove(ctx, "Props/Properties_C06.v")
+    import checks
+    checks.also_prove_file(ctx, "Props/Properties_C06_roundtrip.v")      # the round trip for all meshes (IO/Ovmb2*.v)
     impl, model = tools(ctx)
     rng = Rng(ctx.seed * 1000003 + 6)
     quick = ctx.quick()
@@ -577,6 +593,7 @@ def check_C06(ctx):
     ctx.cov["samples"] += [{"case": c["label"], "bytes": len(c["data"])} for c in list(cases.items.values())[30:34]]
     ctx.cov["samples"] += [{"theorem": t} for t in fw.theorem_statements("Props/Properties_C06.v", 4)]
     ctx.assumptions += ["binary (OVMB) half only unless lib/checks_ascii.py is present",
+                        "C06_roundtrip / C06_spec_roundtrip / C06_reencodings (Props/Properties_C06_roundtrip.v) hold for every mesh value with wf_file (the writer's contract), `accepts` (reader configuration compatible with the file's topology type; the kernel's add_face/add_cell store faces and cells as given) and `fits` (fewer than 2^32 properties and serialized defaults below 2^32 bytes - uint32_t fields of the writer - and every chunk payload below 2^62 bytes); no reader-side size limit is left",
                         "property order inside one entity kind is the order of a std::set of pointers in the writer: the observed order is what encode is given",
                         "entity counts below 2^30"]
     optional_ascii(ctx, "C06")
